@@ -50,4 +50,9 @@ m = dict(
     not_applicable=na,
 )
 json.dump(m, open(os.path.join(ROOT, "MANIFEST.json"), "w"), indent=1)
+# the library root imports every finished theorem module, so that setup_cmd pre-builds all proofs
+from checkconf import READY
+root = ["import OHVerif.Model.Dispatch", "import OHVerif.Spec.Lawful", "import OHVerif.Spec.Diagram"]
+root += ["import " + m for m in sorted(READY) if os.path.exists(os.path.join(ROOT, "lean", m.replace(".", "/") + ".lean"))]
+open(os.path.join(ROOT, "lean", "OHVerif.lean"), "w").write("\n".join(root) + "\n")
 print("claimed", [c["property_id"] for c in checks])
